@@ -115,7 +115,7 @@ OpCopy(b, n, d, sb, sn) == [op |-> "copy", b |-> b, name |-> n, data |-> d, pref
 (*   "copy"    copied another object with storage.Copy.                      *)
 (* In particular an EMPTY object is an object: it reads back as zero bytes,  *)
 (* not as not-exist, is listed, and replaces what was there before.          *)
-WriteStyles == {"write", "nowrite", "copy"}
+WriteStyles == {"write", "nowrite", "copy", "uneven", "tiny"}   \* uneven/tiny: other chunkings of the same bytes (short head + long body + 1 byte; many 7-byte writes + the rest)
 StyleOK(s, d) == s \in WriteStyles /\ (s = "nowrite" => d = EmptyData)
 
 (* ---- pure result functions (also used by the trace module) -------------- *)
